@@ -226,7 +226,7 @@ open Board Geometry Rules
 theorem mem_sliders_spec (bd : Board) (hc : Consistent bd) (p : Player) (k1 : PieceKind) (s : Sq) :
     mem (bd.byKind k1 &&& bd.occFor p ||| bd.byKind .queen &&& bd.occFor p) s = true ↔
       (at' bd.squares s = some ⟨k1, p⟩ ∨ at' bd.squares s = some ⟨.queen, p⟩) := by
-  rw [mem_or, Bool.or_eq_true, mem_piecesOf bd hc, mem_piecesOf bd hc]
+  rw [mem_or, Bool.or_eq_true, mem_kindOf bd hc, mem_kindOf bd hc]
   rfl
 
 /-- **generate_exact, at most one checker** -/
